@@ -22,8 +22,8 @@ from mc import tmlite, world
 ID = 'C20'
 LEVEL = 'exploration'
 
-MNEMONICS = ['ld', 'ldx', 'l', 'mov', 'mov.b', 'add', 'a2', 'x_1m', 'Jmp', '_brk', 'ld_']
-MACROS = ['mac', 'ldm', 'm.x', 'PUSH2', 'mac_']
+MNEMONICS = ['ld', 'ldx', 'l', 'mov', 'mov.b', 'add', 'a2', 'x_1m', 'Jmp', '_brk', 'ld_', '2dup']
+MACROS = ['mac', 'ldm', 'm.x', 'PUSH2', 'mac_', '2swp']
 REGISTERS = ['a', 'x_1', 'sp', 'r1', '_t', 'b0', 'AH']      # b0 / AH also read as a binary / hexadecimal literal
 PREDEFINED = ['KC', 'K_2', 'zn']
 COMPILER_DIRECTIVES = ['org', 'memzone', 'align']
